@@ -206,7 +206,7 @@ def parse_terse(out, names):
 def parse_regular_checks(out):
     """Parse `--output-format regular`: list of (status, description, location)."""
     checks = []
-    for m in re.finditer(r'Check \d+: (\S+)\n\s+- Status: (\w+)\n\s+- Description: "(.*)"\n(?:\s+- Location: (.*)\n)?', out):
+    for m in re.finditer(r'Check \d+: (\S+)\n\s+- Status: (\w+)\n\s+- Description: "(.*?)"\n(?:\s+- Location: (.*)\n)?', out, re.S):
         checks.append({'id': m.group(1), 'status': m.group(2), 'description': m.group(3), 'location': (m.group(4) or '').strip()})
     return checks
 
@@ -448,11 +448,13 @@ def replay_kani(h, descs, prop):
     rc, out, wall, timed_out, _ = run_cmd(cmd, WOVEN, 1200, KANI_ENV, os.path.join(BUILD, 'kani-replay-%s.log' % h.name))
     checks = [c for c in parse_regular_checks(out) if c['status'] == 'FAILURE']
     info['failed_check_details'] = checks[:20]
-    m = re.search(r'Concrete playback unit test for `[^`]*`:\n```\n(.*?)```', out, re.S)
-    if not m:
+    tests = re.findall(r'Concrete playback unit test for `[^`]*`:\n```\n(.*?)```', out, re.S)
+    tests = [t for t in tests if 'Check for `cover`' not in t]
+    if not tests:
         info['verifier_output_tail'] = out[-3000:]
         return info
-    test = m.group(1)
+    info['playback_doc'] = tests[0][:tests[0].index('#[test]')].strip()
+    test = tests[0][tests[0].index('#[test]'):]
     info['playback_test'] = test
     vals = re.findall(r'//\s*(.*)\n\s*vec!\[([0-9, ]*)\]', test)
     info['concrete_input'] = [{'value': v.strip(), 'bytes': [int(x) for x in b.split(',') if x.strip()]} for v, b in vals]
